@@ -31,6 +31,7 @@ static void cb(const char *message, void *arg, vnaerr_category_t category)
     VF_ASSERT(message != NULL, "C11.a: the callback receives a message valid during the call");
     VF_ASSERT(arg == (void *)&calls, "C11.a: the callback receives the user's argument");
     ++calls; last_cat = (int)category; errno_in_cb = errno;
+    errno = 77;		/* a user callback may well disturb errno (logging, I/O): the documented value must survive */
 }
 
 static void report(vnaerr_error_fn_t *fn, void *arg, vnaerr_category_t c, const char *fmt, ...)
